@@ -224,6 +224,30 @@ Proof.
   intros H. pose proof (reports_sound old new _ H) as C. simpl in C. destruct C as [[np [A [B D]]] E]. exists np. auto.
 Qed.
 
+Lemma chdef_inv old new n : In (ChDef n) (fdiff old new) ->
+  exists op np, In op old /\ pname op = n /\ find n new = Some np /\ required op = false /\ required np = false /\
+                is_var (pkind op) = false /\ is_var (pkind np) = false /\ pdef op <> pdef np.
+Proof.
+  unfold fdiff. intros H. apply in_app_or in H. destruct H as [H|H].
+  - destruct (in_olds_inv new old 0 _ H) as [k [op [Hn Hb]]].
+    assert (Hin : In op old) by (eapply nth_error_In; eauto).
+    unfold per_old in Hb. destruct (find (pname op) new) as [np|] eqn:Hf.
+    + apply in_app_or in Hb. destruct Hb as [Hb|Hb].
+      { match type of Hb with In _ (if ?c then _ else _) => destruct c end; [destruct Hb as [Hb|[]]; discriminate|destruct Hb]. }
+      apply in_app_or in Hb. destruct Hb as [Hb|Hb].
+      { match type of Hb with In _ (if ?c then _ else _) => destruct c end; [destruct Hb as [Hb|[]]; discriminate|destruct Hb]. }
+      apply in_app_or in Hb. destruct Hb as [Hb|Hb].
+      { match type of Hb with In _ (if ?c then _ else _) => destruct c end; [destruct Hb as [Hb|[]]; discriminate|destruct Hb]. }
+      match type of Hb with In _ (if ?c then _ else _) => destruct c eqn:C end; [|destruct Hb].
+      destruct Hb as [Hb|[]]. inversion Hb; subst. exists op, np.
+      repeat (apply andb_prop in C; destruct C as [C ?]).
+      repeat match goal with X : negb _ = true |- _ => apply negb_true_iff in X end.
+      repeat split; auto. intros E. rewrite E, odef_eqb_refl in *. discriminate.
+    + exfalso. destruct (swallowed (pkind op) (has_kind VP new) (has_kind VK new)); [destruct Hb|destruct Hb as [Hb|[]]; discriminate].
+  - exfalso. unfold added in H. apply in_flat_map in H. destruct H as [np [_ H]].
+    destruct (find (pname np) old); [destruct H|]. destruct (required np); [destruct H as [H|[]]; discriminate|destruct H].
+Qed.
+
 (* ---- the theorem ---- *)
 Definition call_breaking (old new : sig) : Prop := exists n K, binds old n K = true /\ binds new n K = false.
 
